@@ -581,12 +581,126 @@ macro_rules! c10_branch {
         }
     };
 }
+macro_rules! c10_branch4 {
+    ($name:ident, $k1:ident, $k2:ident, $k3:ident) => {
+        #[kani::proof]
+        #[kani::unwind(7)]
+        #[kani::stub(std::fmt::format, stub_fmt_format)]
+        #[kani::stub(std::hash::RandomState::new, stub_random_state_new)]
+        #[kani::stub(uuid::Uuid::new_v4, stub_uuid_v4)]
+        #[kani::stub(now_ms, stub_now_ms_sym)]
+        #[kani::stub(alloc::string::ToString::to_string, stub_to_string_empty)]
+        #[kani::stub(workspace_key, stub_workspace_key)]
+        #[kani::stub(ContinuityStore::replay_events, env_replay)]
+        #[kani::stub(ContinuityStore::create_continuity, env_create_continuity)]
+        #[kani::stub(rip_log::EventLog::append, env_log_append)]
+        #[kani::stub(ContinuityStreamCache::append_best_effort, env_cache_append_noop)]
+        #[kani::stub(broadcast::Sender::send, env_send_noop)]
+        fn $name() {
+            let seqs: [u64; 4] = kani::any();
+            kani::assume(seqs[0] < seqs[1] && seqs[1] < seqs[2] && seqs[2] < seqs[3]);
+            let mut ids: [u8; 4] = kani::any();
+            kani::assume((ids[1] == b'a' || ids[1] == b'b') && (ids[2] == b'a' || ids[2] == b'b') && (ids[3] == b'a' || ids[3] == b'b'));
+            let idp = ids.as_mut_ptr();
+            let mut hist = core::mem::ManuallyDrop::new([
+                h_created(seqs[0]),
+                $k1(seqs[1], unsafe { idp.add(1) }),
+                $k2(seqs[2], unsafe { idp.add(2) }),
+                $k3(seqs[3], unsafe { idp.add(3) }),
+            ]);
+            let mut env = Env::new(hist.as_mut_ptr(), 4);
+            let store = kani_store_env(&mut env);
+
+            // selector
+            let sel: u8 = kani::any();
+            kani::assume(sel < 4);
+            let want_seq: u64 = kani::any();
+            let mut want_id_b: [u8; 1] = kani::any();
+            kani::assume(want_id_b[0] == b'a' || want_id_b[0] == b'b' || want_id_b[0] == b'c');
+            let from_seq = if sel == 1 || sel == 3 { Some(want_seq) } else { None };
+            let from_mid = if sel == 2 || sel == 3 { Some(alias_str_raw(want_id_b.as_mut_ptr(), 1)) } else { None };
+
+            let r = store.branch("p", None, from_mid, from_seq, lit("u"), lit("o"));
+
+            // reference over the history
+            let head = seqs[3];
+            let is_msg = |e: &Event| matches!(e.kind, EventKind::ContinuityMessageAppended { .. });
+            match &r {
+                Ok((_tid, cut, mid)) => {
+                    assert!(env.created == 1 && env.log_appends == 1, "branch must create the child and append exactly its lineage frame");
+                    assert!(!env.last_on_parent, "branch appended a frame to the parent thread");
+                    assert!(env.last_seq == 1 && env.last_kind == 1, "lineage frame is not continuity_branched at seq 1 of the child");
+                    assert!(env.last_cut == *cut, "returned cut differs from the recorded cut");
+                    assert!(*cut <= head, "recorded cut lies beyond the parent's head");
+                    assert!(sel != 3, "conflicting selectors accepted");
+                    if sel == 0 || sel == 1 {
+                        let bound = if sel == 1 { want_seq } else { head };
+                        assert!(*cut == bound, "cut is not the requested seq / the head");
+                        // last message at or before the cut
+                        let mut want: Option<u8> = None;
+                        let mut j = 0;
+                        while j < 4 {
+                            if is_msg(&hist[j]) && seqs[j] <= bound {
+                                want = Some(ids[j]);
+                            }
+                            j += 1;
+                        }
+                        match (want, mid) {
+                            (None, None) => {}
+                            (Some(w), Some(m)) => assert!(m.len() == 1 && m.as_bytes()[0] == w, "lineage names the wrong message"),
+                            _ => assert!(false, "lineage message presence differs from the history"),
+                        }
+                    } else {
+                        // requested message together with the end of the run that answered it
+                        let w = want_id_b[0];
+                        let mut found = false;
+                        let mut maxrel = 0u64;
+                        let mut j = 0;
+                        while j < 4 {
+                            let rel = match &hist[j].kind {
+                                EventKind::ContinuityMessageAppended { .. } => {
+                                    if ids[j] == w { found = true; true } else { false }
+                                }
+                                EventKind::ContinuityRunSpawned { .. } | EventKind::ContinuityRunEnded { .. } => ids[j] == w,
+                                _ => false,
+                            };
+                            if rel && seqs[j] > maxrel {
+                                maxrel = seqs[j];
+                            }
+                            j += 1;
+                        }
+                        assert!(found, "branch accepted a message id that is not a message of the parent");
+                        assert!(*cut == maxrel, "cut is not the end of the requested message's run");
+                        assert!(mid.as_ref().map(|m| m.len() == 1 && m.as_bytes()[0] == w).unwrap_or(false), "lineage names another message");
+                    }
+                    kani::cover!(sel == 2, "branch from a message id accepted");
+                    kani::cover!(sel == 1 && want_seq < head, "branch from a mid-thread seq accepted");
+                }
+                Err(_) => {
+                    assert!(env.created == 0 && env.log_appends == 0, "a refused branch wrote something");
+                    if sel == 1 {
+                        assert!(want_seq > head, "an in-range from_seq was refused");
+                    }
+                    if sel == 0 {
+                        assert!(false, "branch without selector refused on an existing thread");
+                    }
+                    kani::cover!(sel == 3, "conflicting selectors refused");
+                }
+            }
+            core::mem::forget(r);
+        }
+    };
+}
 c10_branch!(c10_branch_ms, h_message, h_run_spawned);
 c10_branch!(c10_branch_mm, h_message, h_message);
 c10_branch!(c10_branch_me, h_message, h_run_ended);
 c10_branch!(c10_branch_sm, h_run_spawned, h_message);
 c10_branch!(c10t_branch_se, h_run_spawned, h_run_ended);
 c10_branch!(c10t_branch_em, h_run_ended, h_message);
+// 4-frame parents: a run frame of the requested message may follow a LATER message
+c10_branch4!(c10_branch4_mme, h_message, h_message, h_run_ended);
+c10_branch4!(c10t_branch4_mms, h_message, h_message, h_run_spawned);
+c10_branch4!(c10t_branch4_mse, h_message, h_run_spawned, h_run_ended);
 
 // ---------------------------------------------------------------------------------------------------------
 // C01 / C05: one append step of the real append_* functions right after an authority restart
@@ -856,6 +970,18 @@ c02_readonly!(c02_readonly_cursor_status, |s, _seqs| {
     }
     core::mem::forget(r);
 });
+c02_readonly!(c02_readonly_cursor_rotate_named_noop, |s, _seqs| {
+    // a rotate that NAMES a provider / endpoint which no cursor of the thread matches is still a no-op
+    let mut req = rotate_req();
+    req.provider = Some(lit("z"));
+    req.endpoint = if kani::any() { Some(lit("e")) } else { None };
+    let r = s.provider_cursor_rotate_v1("p", req);
+    match &r {
+        Ok(resp) => assert!(!resp.rotated && resp.cursor_event_id.is_none(), "rotation reported although no cursor matches the filter"),
+        Err(_) => assert!(false, "rotate refused on an existing thread"),
+    }
+    core::mem::forget(r);
+});
 c02_readonly!(c02_readonly_cursor_rotate_noop, |s, _seqs| {
     let r = s.provider_cursor_rotate_v1("p", rotate_req());
     match &r {
@@ -873,7 +999,7 @@ c02_readonly!(c02_readonly_selection_status, |s, _seqs| {
     }
     core::mem::forget(r);
 });
-c02_readonly!(c02_readonly_cut_points_truth, |s, seqs| {
+fn cut_points_truth_body(s: &ContinuityStore, seqs: &[u64; 3]) {
     let stride: u64 = kani::any();
     kani::assume(stride >= 1 && stride <= 3);
     let r = s.compaction_cut_points_v1("p", CompactionCutPointsV1Request { stride_messages: Some(stride), limit: Some(1) });
@@ -894,4 +1020,109 @@ c02_readonly!(c02_readonly_cut_points_truth, |s, seqs| {
         Err(_) => assert!(false, "cut points refused on an existing thread"),
     }
     core::mem::forget(r);
-});
+}
+c02_readonly!(c02_readonly_cut_points_truth, cut_points_truth_body);
+// the same truth-path obligation, registered under C09 (planner on the truth-replay path = reference)
+c02_readonly!(c09_cut_points_truth_path, cut_points_truth_body);
+
+
+// ---------------------------------------------------------------------------------------------------------
+// C04 / C08: the input of context compilation does not depend on which read path produced it.
+// Truth: NT = 19 messages (ids 'A'+i, seqs s0+i, s0 symbolic). The messages+runs sidecar tail window holds only the
+// last 17 of them and is NOT complete (older frames exist outside the window) -- the state of every thread longer than
+// the first tail window. The anchor is ANY message of the window (symbolic). Larger windows, the seek-index window and
+// the ordinal caches are absent, so the only other source is truth replay.
+// Obligation (from the property): whichever path answers, the cut point is the frame before the next message (or the
+// head) and the returned frames contain min(16, number of truth messages at or before the cut) messages at or before
+// the cut -- i.e. a bounded tail may only be used when it already holds the documented 16-message context.
+// ---------------------------------------------------------------------------------------------------------
+const NT: usize = 19;
+const TAIL: usize = 17;
+#[repr(C)]
+struct WinEnv {
+    hist: *mut Event,
+    hist_len: usize,
+    replays: u32,
+    tail: *mut Event,
+    tail_len: usize,
+    head: u64,
+}
+fn win_env(p: &Path) -> &mut WinEnv {
+    unsafe { &mut *(p.as_os_str().as_encoded_bytes().as_ptr() as *mut WinEnv) }
+}
+fn win_scan_tail_mr(this: &ContinuityStreamCache, _id: &str, _max_events: usize, max_bytes: usize) -> io::Result<Option<TailScan>> {
+    let env = win_env(crate::continuity_stream_cache::verif_kani::kani_cache_dir(this));
+    if max_bytes > 256 * 1024 {
+        return Ok(None);
+    }
+    Ok(Some(TailScan { events: unsafe { alias_vec(env.tail, env.tail_len) }, complete: false }))
+}
+fn win_last_seq(this: &ContinuityStreamCache, _id: &str) -> io::Result<Option<u64>> {
+    let env = win_env(crate::continuity_stream_cache::verif_kani::kani_cache_dir(this));
+    Ok(Some(env.head))
+}
+fn win_seek_window_absent(_this: &ContinuityStreamCache, _id: &str, _anchor: &str, _limit: usize) -> io::Result<Option<ContinuityWindow>> {
+    Ok(None)
+}
+fn win_replay(this: &ContinuityStore, _id: &str) -> io::Result<Vec<Event>> {
+    let env = win_env(&this.data_dir);
+    env.replays += 1;
+    Ok(unsafe { alias_vec(env.hist, env.hist_len) })
+}
+
+#[kani::proof]
+#[kani::unwind(22)]
+#[kani::stub(std::fmt::format, stub_fmt_format)]
+#[kani::stub(std::hash::RandomState::new, stub_random_state_new)]
+#[kani::stub(alloc::string::ToString::to_string, stub_to_string_empty)]
+#[kani::stub(ContinuityStreamCache::scan_tail_messages_runs_v1, win_scan_tail_mr)]
+#[kani::stub(ContinuityStreamCache::try_read_last_seq, win_last_seq)]
+#[kani::stub(ContinuityStreamCache::window_recent_messages_v1_from_message_id, win_seek_window_absent)]
+#[kani::stub(ContinuityStore::replay_events, win_replay)]
+// NOT REGISTERED (name does not match the cNN_ convention): measured > 900 s at NT = 19 -- the documented limit of 16
+// messages is a constant of the product, so the smallest history that distinguishes "window holds enough context"
+// from "window too short" has 17+ frames, which is beyond what finishes. Seed C04 (seeded/C04) is therefore missed.
+fn zz_c04_compile_input_incomplete_tail() {
+    let s0: u64 = kani::any();
+    kani::assume(s0 < (1u64 << 32));
+    let mut ids: [u8; NT] = core::array::from_fn(|i| b'A' + i as u8);
+    let idp = ids.as_mut_ptr();
+    let mut hist: core::mem::ManuallyDrop<[Event; NT]> =
+        core::mem::ManuallyDrop::new(core::array::from_fn(|i| h_message(s0 + i as u64, unsafe { idp.add(i) })));
+    let head = s0 + (NT as u64 - 1);
+    let mut env = WinEnv {
+        hist: hist.as_mut_ptr(), hist_len: NT, replays: 0,
+        tail: unsafe { hist.as_mut_ptr().add(NT - TAIL) }, tail_len: TAIL, head,
+    };
+    let envp: *mut WinEnv = &mut env;
+    let store = kani_store_env(envp as *mut Env);
+
+    // anchor: any message of the tail window
+    let a: usize = kani::any();
+    kani::assume(a >= NT - TAIL && a < NT);
+    let mut anchor_b: [u8; 1] = [b'A' + a as u8];
+    let anchor = unsafe { core::str::from_utf8_unchecked(&anchor_b) };
+
+    let r = store.load_context_compile_input_recent_messages_v1("p", anchor);
+    match &r {
+        Ok(input) => {
+            let want_cut = if a + 1 < NT { s0 + a as u64 } else { head };
+            assert!(input.from_seq == want_cut, "cut point is not the frame before the next message (or the head)");
+            let mut have = 0usize;
+            let mut j = 0;
+            while j < input.continuity_events.len() {
+                if input.continuity_events[j].seq <= input.from_seq {
+                    have += 1;
+                }
+                j += 1;
+            }
+            let truth = a + 1; // messages at or before the cut in the truth log
+            let need = if truth < 16 { truth } else { 16 };
+            assert!(have >= need, "compile input from a bounded cache window holds fewer messages than the truth log determines");
+            kani::cover!(env.replays == 0, "answered from the bounded tail window");
+            kani::cover!(env.replays == 1, "fell back to truth replay");
+        }
+        Err(_) => assert!(false, "compile input refused for an existing anchor"),
+    }
+    core::mem::forget(r);
+}
